@@ -44,6 +44,9 @@ ASSUMPTIONS = [
 OUTSIDE = ['claims, supports and purchases', 'more than 100 transactions per address', 'several accounts and wallets',
            'the real AIOSQLite executor threads', 'network failures', 'merkle verification']
 
+TECHNIQUE = ('bounded symbolic execution of the real Python source (symvm): the shape of the server history, the staging and the schedule of the '
+             'concurrent update tasks are solver-chosen inputs, z3 decides which choices exist, the decision tree is explored exhaustively and every '
+             'path is replayed natively; sqlite runs for real on an in-memory database')
 VM = [None]
 DEBUG = bool(__import__('os').environ.get('C09_DEBUG'))
 SCHED = [None]
@@ -53,6 +56,7 @@ AMOUNTS = [1 << (20 + i) for i in range(16)]
 
 
 # ------------------------------------------------------------------------------------------------ stand-ins
+PREEMPT = [None]     # context bound of the race jobs (None: unbounded)
 GRAIN = [1]          # scheduling points: 0 = database writes, 1 = + network calls, 2 = every database call and network call
 
 
@@ -166,6 +170,7 @@ class Network:
     def __init__(self, server):
         self.server = server
         self.subscribed = []
+        self.told = {}              # the status last reported per address
 
     def retriable_call(self, function, *args, **kwargs):
         return function(*args, **kwargs)
@@ -190,7 +195,8 @@ class Network:
         for a in addresses:
             if a not in self.subscribed:
                 self.subscribed.append(a)
-        return [self.server.status(a) for a in addresses]
+            self.told[a] = self.server.status(a)
+        return [self.told[a] for a in addresses]
 
 
 class Events:
@@ -401,9 +407,11 @@ class SeqSched:
     """Run-to-completion scheduling: the tasks of a stage run one after the other in a solver-chosen order (no threads, so the
     exploration can fork at every choice)."""
 
-    def __init__(self, vm):
+    def __init__(self, vm, all_orders=True):
         self.vm = vm
         self.tasks = []
+        self.all_orders = all_orders
+        self.reverse = None
 
     def spawn(self, fn, args):
         self.tasks.append((fn, args))
@@ -416,19 +424,33 @@ class SeqSched:
 
     def run_all(self):
         while self.tasks:
-            i = self.vm.pick('order', len(self.tasks)) if len(self.tasks) > 1 else 0
+            if len(self.tasks) < 2:
+                i = 0
+            elif self.all_orders:
+                i = self.vm.pick('order', len(self.tasks))
+            else:
+                if self.reverse is None:
+                    self.reverse = self.vm.pick('newest_notification_first', 2)
+                i = len(self.tasks) - 1 if self.reverse else 0
+            if DEBUG:
+                print("seq tasks", len(self.tasks), i)
             fn, args = self.tasks.pop(i)
             fn(*args)
 
 
+def first_addresses(vm, account):
+    vm.await_(account.receiving.ensure_address_gap())
+
+
 def new_sched(vm, race):
-    return Sched(vm, max_steps=400) if race else SeqSched(vm)
+    return Sched(vm, max_steps=400, preempt_bound=PREEMPT[0]) if race else SeqSched(vm, race is False)
 
 
-def sync(vm, spec, race, grain, duplicate, first_rich=False, stages=2):
+def sync(vm, spec, race, grain, duplicate, first_rich=False, stages=2, preempt=None, overlap=False):
     """spec: a number of transactions (the shape is then solver-chosen) or a fixed shape."""
     VM[0] = vm
     GRAIN[0] = grain
+    PREEMPT[0] = preempt
     addresses, xpub = vm.wallet_addresses(N_DEST + 2 * GAP)
     if isinstance(spec, int):
         spec = choose_world(vm, spec, first_rich)
@@ -452,23 +474,19 @@ def sync(vm, spec, race, grain, duplicate, first_rich=False, stages=2):
     account.receiving.address_generator_lock = ModelLock()
     account.change.address_generator_lock = ModelLock()
     ledger.add_account(account)
-    SCHED[0] = SeqSched(vm)
-    SCHED[0].spawn(run_task, [vm, account.receiving.ensure_address_gap(), []])     # initial addresses; nothing on the server yet
+    SCHED[0] = SeqSched(vm, False)
+    SCHED[0].reverse = 0                                # nothing on the server yet: the order of the first (empty) updates is immaterial
+    SCHED[0].spawn(first_addresses, [vm, account])     # initial addresses; nothing on the server yet
     SCHED[0].run_all()
-    known_status = {}
-    for stage, (n, confirmed) in enumerate(((n1, c1), (n_tx, c2))):
-        if stage == 1 and n == n1 and confirmed == c1:
-            break                                                                  # nothing new on the server
-        server.n, server.confirmed = n, confirmed
+    for a in network.subscribed:
+        network.told[a] = None
+    second = not (n_tx == n1 and c2 == c1)                                         # is there anything new in stage 2?
+    if overlap and second:
+        # one scheduler for both stages: the server moves on (and sends the next notifications) while the first updates still run
+        server.n, server.confirmed = n1, c1
         SCHED[0] = new_sched(vm, race)
-        notified = 0
-        for a in list(network.subscribed):
-            status = server.status(a)
-            if known_status.get(a) != status:
-                SCHED[0].spawn(run_task, [vm, ledger.update_history(a, status), results])
-                notified += 1
-                if duplicate and notified == 1:
-                    SCHED[0].spawn(run_task, [vm, ledger.update_history(a, status), results])
+        notify(vm, network, ledger, results, duplicate)
+        SCHED[0].spawn(next_stage, [vm, server, network, ledger, results, n_tx, c2])
         try:
             SCHED[0].run_all()
         except Exception as e:
@@ -476,12 +494,43 @@ def sync(vm, spec, race, grain, duplicate, first_rich=False, stages=2):
                 raise
             return 'VIOLATION: update_history raised %s' % type(e).__name__
         SCHED[0] = None
-        for a in network.subscribed:
-            known_status[a] = server.status(a)
+        verdict = compare(vm, world, server, addresses, db, account, ledger, results)
+        return (verdict + ' (after overlapping stages)') if verdict else 'ok'
+    for stage, (n, confirmed) in enumerate(((n1, c1), (n_tx, c2))):
+        if stage == 1 and not second:
+            break
+        server.n, server.confirmed = n, confirmed
+        SCHED[0] = new_sched(vm, race)
+        notify(vm, network, ledger, results, duplicate)
+        try:
+            SCHED[0].run_all()
+        except Exception as e:
+            if DEBUG:
+                raise
+            return 'VIOLATION: update_history raised %s' % type(e).__name__
+        SCHED[0] = None
         verdict = compare(vm, world, server, addresses, db, account, ledger, results)
         if verdict:
             return verdict + ' (after stage %d)' % (stage + 1)
     return 'ok'
+
+
+def notify(vm, network, ledger, results, duplicate):
+    """The server tells every subscribed address whose status changed since it last reported it."""
+    notified = 0
+    for a in list(network.subscribed):
+        status = network.server.status(a)
+        if network.told.get(a) != status:
+            network.told[a] = status
+            SCHED[0].spawn(run_task, [vm, ledger.update_history(a, status), results])
+            notified += 1
+            if duplicate and notified == 1:
+                SCHED[0].spawn(run_task, [vm, ledger.update_history(a, status), results])
+
+
+def next_stage(vm, server, network, ledger, results, n, confirmed):
+    server.n, server.confirmed = n, confirmed
+    notify(vm, network, ledger, results, False)
 
 
 def compare(vm, world, server, addresses, db, account, ledger, results):
@@ -510,6 +559,17 @@ def compare(vm, world, server, addresses, db, account, ledger, results):
             return 'VIOLATION: stored history differs from the server history'
         if have[a]['used_times'] != len(server.history(a)):
             return 'VIOLATION: used_times differs from the number of history entries'
+    for k in range(server.n):
+        reachable = False
+        for a in world['touches'][k]:
+            if a in addresses[:known]:
+                reachable = True
+        if reachable:
+            row = db.db.conn.execute('select height from tx where txid=?', (world['txids'][k],)).fetchone()
+            if row is None:
+                return 'VIOLATION: a transaction of the history is not stored'
+            if row['height'] != server.height(k):
+                return 'VIOLATION: a stored transaction does not carry the height the server reports'
     got = vm.await_(account.get_utxos())
     got_map = {}
     for txo in got:
@@ -541,6 +601,7 @@ def sym_setup(vm, job):
     vm.register_helper('build_world', build_world)
     vm.models[id(asyncio.gather)] = lambda vm_, a, k: vm_.call(gather, list(a), k)
     vm._helpers.append(gather)
+    vm.lazy_async.add('Ledger.update_history')       # handed to Ledger._update_tasks: runs as its own task
 
 
 class _Native:
@@ -570,6 +631,8 @@ SHAPES = {
     'two-addresses': [(-1, [0, 1]), (1, [FOREIGN_KEY])],
     # fund, spend to a stranger with change to the wallet, spend the change
     'change-chain': [(-1, [0]), (0, [FOREIGN_KEY, 1]), (1, [FOREIGN_KEY])],
+    # two payments to one address
+    'same-address-twice': [(-1, [0]), (-1, [0])],
 }
 
 
@@ -579,35 +642,106 @@ GRAINS = ('database writes', 'database writes and network calls', 'every databas
 def jobs(tier):
     out = []
 
-    def seq(n, rich):
-        out.append(dict(name=f'seq-{n}tx{"-rich" if rich else ""}', family='seq', fn='sync', args=(n, False, 0, False, rich),
+    def seq(n, rich, orders=False):
+        out.append(dict(name=f'seq-{n}tx{"-rich" if rich else ""}{"" if orders is False else "-2orders"}', family='seq', fn='sync',
+                        args=(n, orders, 0, False, rich),
                         loop_bound=2000, max_depth=80, cost=300 * 40 ** (n - 1),
                         bounds=dict(transactions=n, shape='solver-chosen: source external or any unspent wallet output; first output to wallet '
                                     'address 0-2 or a foreign key; optional second output (foreign script hash, wallet address 0 or 1)',
                                     stages='2 (any split; any prefix confirmed, the rest in the mempool; optionally all confirmed at the end)',
-                                    gap=GAP, schedule='notifications run to completion in every order'), must_reach=('ok',)))
+                                    gap=GAP, schedule='notifications run to completion, ' + ('in every order' if orders is False else
+                                                                                      'oldest first or newest first')), must_reach=('ok',)))
 
-    def race(shape, grain, dup, stages):
-        out.append(dict(name=f'race-{shape}-grain{grain}{"-dup" if dup else ""}-{stages}stage', family='race', fn='sync',
-                        args=(SHAPES[shape], True, grain, dup, False, stages), loop_bound=2000, max_depth=80, cost=500 * 8 ** grain * stages ** 2,
+    def race(shape, grain, dup, stages, preempt, overlap=False):
+        out.append(dict(name=f'race-{shape}-grain{grain}{"-dup" if dup else ""}-{stages}stage{"-overlap" if overlap else ""}-{"any" if preempt is None else preempt}switches',
+                        family='race', fn='sync', args=(SHAPES[shape], True, grain, dup, False, stages, preempt, overlap), loop_bound=2000, max_depth=80,
+                        cost=500 * 8 ** grain * stages ** 2 * (preempt or 4) ** 2,
                         bounds=dict(shape=shape, transactions=len(SHAPES[shape]),
-                                    stages='2 (any split and confirmation prefix)' if stages == 2 else '1 (all at once, any confirmation prefix)',
-                                    gap=GAP, schedule='every interleaving of the concurrent update_history tasks at ' + GRAINS[grain],
-                                    duplicate_notification=dup), must_reach=('ok',)))
+                                    stages=('2 (any split and confirmation prefix)' + (', the second arriving while the updates of the first still run' if overlap else ''))
+                                    if stages == 2 else '1 (all at once, any confirmation prefix)',
+                                    gap=GAP, schedule='every interleaving of the concurrent update_history tasks with scheduling points at ' + GRAINS[grain] +
+                                    (' and at most %d preemptions (switches away from a task that could continue)' % preempt if preempt is not None
+                                     else ''), duplicate_notification=dup), must_reach=('ok',)))
     if tier == 'quick':
-        seq(2, False)
-        race('spend-to-own', 0, False, 1)
-        race('beyond-gap', 0, False, 1)
+        seq(2, False, None)
+        race('spend-to-own', 0, False, 1, 1)
+        race('beyond-gap', 0, False, 1, 1)
+        race('same-address-twice', 1, False, 2, 2, True)
     else:
         seq(2, True)
         seq(3, False)
         for shape in SHAPES:
-            race(shape, 0, True, 2)
-        race('spend-to-own', 1, False, 1)
-        race('spend-to-own', 2, False, 1)
-        race('two-addresses', 1, False, 1)
+            race(shape, 0, True, 2, 2)
+            race(shape, 1, False, 1, 2)
+        race('spend-to-own', 2, False, 1, 2)
+        race('spend-to-own', 0, False, 1, 3)
+        race('same-address-twice', 1, False, 2, 3, True)
+        race('spend-to-own', 1, False, 2, 2, True)
     return out
 
 
 def finding_key(job, verdict, inputs, named):
     return f'{job.get("family")}|{verdict}'
+
+
+# ------------------------------------------------------------------------------------------------ canaries
+def _no_pending_resolution(node):
+    """_sync no longer links an input to the output of a transaction fetched in the same batch."""
+    import ast
+    for n in ast.walk(node):
+        if isinstance(n, ast.If) and 'wanted_txid in pending_txs' in ast.unparse(n.test):
+            n.test = ast.Constant(False)
+            return True
+    return False
+
+
+def _no_gap_maintenance(node):
+    """update_history no longer asks the address manager to top up the gap."""
+    import ast
+    for n in ast.walk(node):
+        if isinstance(n, ast.If) and ast.unparse(n.test) == 'address_manager is not None' and 'ensure_address_gap' in ast.unparse(n):
+            n.body = [ast.Pass()]
+            return True
+    return False
+
+
+def _height_ignored_when_diffing(node):
+    """update_history treats a known transaction id as synced whatever its height."""
+    import ast
+    for n in ast.walk(node):
+        if isinstance(n, ast.Compare) and ast.unparse(n) == 'local_history[i] == (txid, remote_height)':
+            n.left = ast.parse('local_history[i][0]', mode='eval').body
+            n.comparators = [ast.Name(id='txid', ctx=ast.Load())]
+            return True
+    return False
+
+
+def _only_my_inputs_recorded(node):
+    """_transaction_io records outputs only for transactions that spend the address."""
+    import ast
+    for n in ast.walk(node):
+        if isinstance(n, ast.BoolOp) and ast.unparse(n) == 'txo.pubkey_hash == txhash or is_my_input':
+            n.values = [ast.Name(id='is_my_input', ctx=ast.Load()), ast.Name(id='is_my_input', ctx=ast.Load())]
+            return True
+    return False
+
+
+def _no_address_lock(node):
+    """update_history without the per-address lock."""
+    import ast
+    for i, n in enumerate(node.body):
+        if isinstance(n, ast.AsyncWith):
+            node.body[i:i + 1] = n.body
+            return True
+    return False
+
+
+_SEQ2 = dict(family='seq', fn='sync', args=(2, None, 0, False, False), loop_bound=2000, max_depth=80)
+CANARIES = [
+    dict(name='same-batch-spend-not-linked', target='lbry.wallet.ledger:Ledger._sync', mutate=_no_pending_resolution, job=_SEQ2),
+    dict(name='gap-not-maintained', target='lbry.wallet.ledger:Ledger.update_history', mutate=_no_gap_maintenance, job=_SEQ2),
+    dict(name='height-change-not-synced', target='lbry.wallet.ledger:Ledger.update_history', mutate=_height_ignored_when_diffing, job=_SEQ2),
+    dict(name='received-outputs-not-recorded', target='lbry.wallet.database:Database._transaction_io', mutate=_only_my_inputs_recorded, job=_SEQ2),
+    dict(name='no-address-lock', target='lbry.wallet.ledger:Ledger.update_history', mutate=_no_address_lock,
+         job=dict(family='race', fn='sync', args=(SHAPES['same-address-twice'], True, 1, False, False, 2, 2, True), loop_bound=2000, max_depth=80)),
+]
